@@ -393,4 +393,36 @@ theorem accepted_live (hc : c.busy < c.cap) (he : Exec c xs ls) (ha : ∀ i, Amb
 
 end exec
 
+-- ------------------------------------------------------------------ plain runs of `fire`
+
+section run
+variable {c : Cfg} {run : Nat → St} {ls : Nat → Option Label}
+
+/-- a run of `fire` with its observers is an execution of the model with observers -/
+theorem exec_of_run (hr : IsRun c run ls) : Exec c (fun i => ⟨run i, obs run ls i⟩) ls := by
+  refine ⟨hr.init, rfl, ?_⟩
+  intro i
+  have h := hr.step i
+  cases hl : ls i with
+  | none =>
+    rw [hl] at h
+    show (⟨run (i + 1), obs run ls (i + 1)⟩ : XSt) = ⟨run i, obs run ls i⟩
+    rw [h]
+    simp [obs, hl]
+  | some l =>
+    rw [hl] at h
+    show xstep c l ⟨run i, obs run ls i⟩ = some ⟨run (i + 1), obs run ls (i + 1)⟩
+    simp [xstep, h, obs, hl]
+
+theorem en_run (l : Label) (j : Nat) :
+    En (xstep c) l (⟨run j, obs run ls j⟩ : XSt) ↔ En (fire .fixed c) l (run j) := en_iff
+
+theorem fair_of_run (hf : FairRun c run ls) : Fair c (fun i => ⟨run i, obs run ls i⟩) ls := by
+  refine ⟨fun l hl i h => hf.weak l hl i (fun j hj => (en_run l j).1 (h j hj)), ?_, ?_, ?_⟩
+  · exact fun i h => hf.sus i (fun j hj => (h j hj).imp fun k hk => ⟨hk.1, (en_run _ k).1 hk.2⟩)
+  · exact fun i h => hf.blk i (fun j hj => (h j hj).imp fun k hk => ⟨hk.1, (en_run _ k).1 hk.2⟩)
+  · exact fun i h => hf.tx i (fun j hj => (h j hj).imp fun k hk => ⟨hk.1, (en_run _ k).1 hk.2⟩)
+
+end run
+
 end MW.Lemmas.ProtoLive
